@@ -588,6 +588,8 @@ def check_run(rec, tpl, rows, prob, refs, bname, lb, ub, bkind, sidx, variant, m
     tau = float(extra.get('tolerance', DEFAULT_TOLERANCE))
     S = max(1.0, abs(ll_start), abs(ref_ll))
     gtol = 1e-2 * scale
+    if 'tolerance' in extra:
+        gtol = min(gtol, 1e3 * tau * S)  # a configured (tight) tolerance must be visible in the returned point
     vtol = max(1e-6 * scale, nf * nf * refs['ib'] * (tau * S) ** 2)
     if conv:
         for i in range(nf):
@@ -631,6 +633,8 @@ def check_run(rec, tpl, rows, prob, refs, bname, lb, ub, bkind, sidx, variant, m
                 if o.initValue != xs[i]:
                     viol('estimate-not-written-back', f'after estimate() Beta {nm} has initValue {o.initValue!r}, estimate '
                          f'is {xs[i]!r}', expected=xs[i], observed=o.initValue)
+            elif o.initValue == start[i] and start[i] != xs[i]:
+                rec.count('quick_estimate_left_the_start_value_in_the_formula(not demanded)')
             elif o.initValue != xs[i] and o.initValue != start[i]:
                 viol('quick-estimate-start-value-corrupted', f'after quick_estimate() Beta {nm} has initValue {o.initValue!r}, '
                      f'neither the start {start[i]!r} nor the estimate {xs[i]!r}', expected=[start[i], xs[i]], observed=o.initValue)
@@ -641,6 +645,22 @@ def check_run(rec, tpl, rows, prob, refs, bname, lb, ub, bkind, sidx, variant, m
             if bv.get(prob.names[k]) != want:
                 viol('get-beta-values-after-estimation', f'get_beta_values()[{prob.names[k]}] = {bv.get(prob.names[k])!r}, '
                      f'expected {want!r}', expected=want, observed=bv.get(prob.names[k]))
+    # (9) history [estimate(), estimate()]: the second run starts from the written-back estimates
+    if mode == 'estimate' and not light and sidx == 0 and variant in ALGOS:
+        try:
+            r2 = b.estimate()
+            il2 = r2.data.initLogLike
+            if il2 is None or not _rel(float(il2), ll_rep, scale) <= 1e-9:
+                viol('second-estimate-does-not-start-from-the-estimates', f'a second estimate() reports initLogLike {il2!r}; the '
+                     f'first returned logLike {ll_rep!r}', expected=ll_rep, observed=il2)
+            if float(r2.data.logLike) < ll_rep - 1e-9 * scale:
+                viol('second-estimate-below-first', f'second estimate() logLike {float(r2.data.logLike)!r} < first {ll_rep!r}',
+                     expected=f'>= {ll_rep}', observed=float(r2.data.logLike))
+            rec.count('second_estimates')
+        except Exception as e:  # noqa: BLE001
+            if isinstance(e, RuntimeError):
+                rec.retire = True
+            viol(f'second-estimate-raised-{type(e).__name__}', f'{type(e).__name__}: {str(e)[:300]}', observed=repr(e)[:300])
     active = tuple(1 if (ub[i] is not None and abs(xs[i] - ub[i]) <= 1e-9) else -1 if (lb[i] is not None and abs(xs[i] - lb[i]) <= 1e-9)
                    else 0 for i in range(nf))
     rec.case((case['model'], tuple(case['code']), bname, sidx, variant, mode),
@@ -791,7 +811,7 @@ def tasks(tier, seed):
     for model, nrows in [('L2', 4), ('N2', 3), ('L3G', 4)] if tier == 'quick' else [('L2', 5), ('N2', 4), ('N3', 4), ('L3G', 4), ('L2F', 5)]:
         tpl = T[model]
         codes = list(itertools.product(range(nsymbols(tpl)), repeat=nrows))
-        step = 3 if tier == 'quick' else 4
+        step = (3 if nsymbols(tpl) == 2 else 9) if tier == 'quick' else 4
         for i in range(0, len(codes), step):
             out.append(dict(part='boot', model=model, nrows=nrows, first=i, codes=[list(codes[i])], tier=tier))
     return out
@@ -890,3 +910,17 @@ def replay(case):
         check_run(rec, tpl, rows, prob, refs, case['bname'], case['lb'], case['ub'], case['bkind'], case['sidx'],
                   case['variant'], case['mode'], case)
     return rec.violations
+
+
+# =========================================================================== cross-task guards
+def finalize(agg, tier, seed):
+    """Vacuity guards (harness errors, not violations): the space must really contain converged runs, runs that end
+    on an active bound, documented box-leaving runs of the unbounded algorithms and bootstrap histories."""
+    need = ['estimations', 'converged', 'runs_ending_on_an_active_bound', 'unbounded_algorithm_left_the_box(documented)',
+            'bootstrap_histories', 'tables_accepted', 'second_estimates']
+    for n in need:
+        if agg.counts.get(n, 0) == 0 and not agg.harness_errors:
+            agg.harness_errors.append((f'vacuous exploration: counter {n} is zero', {}))
+    c = agg.counts
+    if c.get('estimations') and c.get('converged', 0) < 0.5 * c['estimations']:
+        agg.harness_errors.append((f"vacuous exploration: only {c.get('converged', 0)} of {c['estimations']} runs report convergence", {}))
